@@ -13,11 +13,12 @@ let tail_of i = n_of_z (Z.add (zpow2 191) (Z.of_int i))
 let nz s = n_of_tok s
 let rec pairs = function a :: b :: r -> (nz a, nz b) :: pairs r | _ -> []
 
-type elem = Nodef | Mop of string * op        (* kind token, model op *)
+type elem = Nodef of string | Mop of string * op        (* kind token (of an undefined group / of the op), model op *)
 
 type case = {
   mix : string; fccap : nat; epoch0 : n; listen_mode : int; listen_n : int; vals0 : (n * n) list; pol : ((n * n) * (n * n) list) list;
   main : elem list; alt : elem list option;
+  marker : (int * n * (n * n) list * string list) option;   (* C09: number of main elements before ALTFROM, its epoch and validators, its argument tokens *)
   main_toks : string list list; alt_toks : string list list;
   name_of : (string, int) Hashtbl.t; id_of : (int, n) Hashtbl.t;
 }
@@ -80,7 +81,7 @@ let parse (inp : string list) : case =
       | "ALTFROM" :: _ -> ()
       | ("P" | "X") as k :: n :: r ->
         (match Hashtbl.find_opt defs (int_of_string n) with
-         | None -> push g Nodef
+         | None -> push g (Nodef (List.hd g))
          | Some e ->
            let e = (match k, r with
              | "X", f :: _ -> { e with a_frame = nz f }
@@ -88,37 +89,43 @@ let parse (inp : string list) : case =
            push g (Mop (k, OpP e)))
       | "Y" :: n :: ep :: cr :: seq :: lam :: fr :: ps ->
         let n = int_of_string n in
-        if Hashtbl.mem defs n then push g Nodef else
+        if Hashtbl.mem defs n then push g (Nodef (List.hd g)) else
         (match mk_ev n (nz ep) (nz cr) (nz seq) (nz lam) (nz fr) (List.map int_of_string ps) with
          | Some e ->
            if not (Hashtbl.mem name_of (Z.to_string (z_of_n e.a_id))) then
              Hashtbl.replace name_of (Z.to_string (z_of_n e.a_id)) n;
            push g (Mop ("Y", OpP e))
-         | None -> push g Nodef)
+         | None -> push g (Nodef (List.hd g)))
       | ("B" | "b") as k :: ep :: cr :: seq :: lam :: ps ->
         (match mk_ev (-1) (nz ep) (nz cr) (nz seq) (nz lam) N0 (List.map int_of_string ps) with
          | Some e -> push g (Mop (k, OpB e))
-         | None -> push g Nodef)
+         | None -> push g (Nodef (List.hd g)))
       | ["R"] -> push g (Mop ("R", OpR))
       | ["r"] -> push g (Mop ("R", OpR))
       | "RESET" :: ep :: r -> push g (Mop ("RESET", OpReset (nz ep, pairs r)))
       | ["M"; n] ->
         (match Hashtbl.find_opt lid (int_of_string n) with
          | Some id -> push g (Mop ("M", OpM id))
-         | None -> push g Nodef)
+         | None -> push g (Nodef (List.hd g)))
       | ["G"; f] -> push g (Mop ("G", OpG (nz f)))
       | ["W"] -> push g (Mop ("W", OpV))
       | ["Q"; a; b] ->
         (match Hashtbl.find_opt lid (int_of_string a), Hashtbl.find_opt lid (int_of_string b) with
          | Some ia, Some ib -> push g (Mop ("Q", OpQ (ia, ib)))
-         | _ -> push g Nodef)
-      | _ -> push g Nodef) gs;
+         | _ -> push g (Nodef (List.hd g)))
+      | _ -> push g (Nodef (List.hd g))) gs;
     (List.rev !els, List.rev !toks) in
   let main, main_toks = elems_of body in
   let alt, alt_toks = (match alt_groups mix body with
     | Some ag -> let a, t = elems_of ag in (Some a, t)
     | None -> (None, [])) in
-  { mix; fccap; epoch0; listen_mode = !lmode; listen_n = !ln; vals0 = !vals0; pol = List.rev !pol; main; alt; main_toks; alt_toks; name_of; id_of }
+  let marker = (if mix <> "C09" then None else
+    let rec split pre = function
+      | [] -> None
+      | ("ALTFROM" :: ep :: r) :: _ -> Some (List.length (fst (elems_of (List.rev pre))), nz ep, pairs r, ep :: r)
+      | g :: r -> split (g :: pre) r in
+    split [] body) in
+  { mix; marker; fccap; epoch0; listen_mode = !lmode; listen_n = !ln; vals0 = !vals0; pol = List.rev !pol; main; alt; main_toks; alt_toks; name_of; id_of }
 
 (* ---------- printing model observations ---------- *)
 let err_tok = function
@@ -170,7 +177,7 @@ let obs_toks c (o : obs) : string list * bool (*dead*) =
 (* run the model over one element list; returns one token group per element that produced output *)
 let model_run c (smp : n -> n list option) (els : elem list) : string list list =
   block_counter := 0;
-  let ops = List.filter_map (function Mop (_, o) -> Some o | Nodef -> None) els in
+  let ops = List.filter_map (function Mop (_, o) -> Some o | Nodef _ -> None) els in
   (* listen mode 3: no BeginBlock, hence no EndBlock either: no sealing rule applies *)
   let pol = if c.listen_mode = 3 then [] else c.pol in
   let obs = ref (Model.run c.fccap pol smp (start c.epoch0 c.vals0) ops) in
@@ -178,7 +185,7 @@ let model_run c (smp : n -> n list option) (els : elem list) : string list list 
   List.filter_map (fun el ->
     if !dead then None else
     match el with
-    | Nodef -> Some ["nodef"]
+    | Nodef _ -> Some ["nodef"]
     | Mop _ ->
       (match !obs with
        | [] -> dead := true; None
@@ -245,7 +252,7 @@ let pair_trace (els : elem list) (groups : string list list) : (string * op opti
   let rec go els gs acc =
     match els, gs with
     | _, [] | [], _ -> List.rev acc
-    | Nodef :: er, g :: gr -> go er gr (("nodef", None, g) :: acc)
+    | Nodef k :: er, g :: gr -> go er gr ((k, None, g) :: acc)   (* keeps its kind: the projections of C07/C08 filter by it *)
     | Mop (k, o) :: er, g :: gr -> go er gr ((k, Some o, g) :: acc) in
   go els groups []
 
@@ -353,6 +360,18 @@ let join_groups gs = String.concat " ; " (List.map (String.concat " ") gs)
 let eval_with (pid : string) (smp : n -> n list option) inp obs : verdict =
   let c = parse inp in
   if mk_vals c.vals0 = [] then   (* no genesis validators: not a scenario (only met while shrinking) *)
+    { default_verdict with model_obs = ["invalid"]; spec_ok = None; nontrivial = false } else
+  (* C09: the ALTFROM marker must describe the model's state at that point (just switched to that epoch with those
+     validators, nothing accepted yet); otherwise the case is not a C09 scenario (only met while shrinking) *)
+  let marker_ok = (match c.marker with
+    | None -> true
+    | Some (k, _, _, args) when List.nth_opt c.main_toks k = Some ("RESET" :: args) -> true   (* the next op is that very Reset *)
+    | Some (k, ep, raw, _) ->
+      let rec take n l = if n <= 0 then [] else match l with [] -> [] | x :: t -> x :: take (n - 1) t in
+      let ops = List.filter_map (function Mop (_, o) -> Some o | Nodef _ -> None) (take k c.main) in
+      let i = run_inst c.fccap c.pol smp (start c.epoch0 c.vals0) ops in
+      i.i_st.l_epoch = ep && i.i_st.l_ldf = N0 && i.i_st.l_vals = mk_vals raw && i.i_proc = []) in
+  if not marker_ok then
     { default_verdict with model_obs = ["invalid"]; spec_ok = None; nontrivial = false } else
   let mm = model_run c smp c.main in
   let ma = match c.alt with Some a -> model_run c smp a | None -> [] in
